@@ -1915,6 +1915,9 @@ pub fn glue() -> Vec<String> {
         out.push(format!("hash {a}: {}", h1.finish() == h2.finish()));
         out.push(format!("fmt {a}: [{}] [{:?}] [{:>8}] [{:#?}] [{:08}]", x, x, x, x, x));
         out.push(format!("ptrfmt {a}: {}", format!("{:p}", x) == format!("{:p}", Rc::as_ptr(&x))));
+        // the formatter's flags must reach the payload (Debug as well as Display)
+        out.push(format!("fmtflags {a}: [{:>12?}] [{:<12?}] [{:^12?}] [{:+?}] [{:#x?}] [{:#X?}] [{:012?}] [{:+}] [{:<6}|]",
+            x, x, x, x, x, x, x, x, x));
         let f: Rc<i64> = Rc::from(a);
         let fb: Rc<i64> = Rc::from(Box::new(a));
         out.push(format!("from {a}: {} {} {} {}", *f, *fb, Rc::strong_count(&f), Rc::weak_count(&fb)));
@@ -1938,6 +1941,15 @@ pub fn glue() -> Vec<String> {
     let d: Rc<i64> = Default::default();
     let s: Rc<String> = Default::default();
     out.push(format!("default: {} [{}] {}", *d, *s, Rc::strong_count(&d)));
+    // Debug with the alternate flag, width and precision on structured and floating payloads
+    #[derive(Debug, Clone, PartialEq)]
+    struct Pt { x: i32, name: &'static str, v: Vec<u8> }
+    let pt = Rc::new(Pt { x: -3, name: "p", v: vec![1, 2] });
+    out.push(format!("fmtstruct: [{:?}] [{:#?}] [{:>40?}]", pt, pt, Rc::new((1u8, "t"))));
+    let fl = Rc::new(1.5f64);
+    out.push(format!("fmtfloat: [{:8.3?}] [{:8.3}] [{:+.1}] [{:08.2}]", fl, fl, fl, fl));
+    let st = Rc::new(String::from("s\"q"));
+    out.push(format!("fmtstr: [{:?}] [{:>8}] [{:.2}] [{:#?}]", st, st, st, st));
     // identity
     let x = Rc::new(41i64);
     let y = x.clone();
